@@ -176,8 +176,11 @@ func (ins *Instance[L, Elem]) Forward(fn *ir.Function) {
 					Decision: d.Decision,
 				}
 
-				for _, ref := range *instr.Referrers() {
-					worklist[ref] = struct{}{}
+				// Instructions that aren't values (returns, stores, branches) have no referrers.
+				if refs := instr.Referrers(); refs != nil {
+					for _, ref := range *refs {
+						worklist[ref] = struct{}{}
+					}
 				}
 			}
 		}
